@@ -376,6 +376,22 @@ func (w *World) binop(fr *frame, op token.Token, t types.Type, x, y Value) Value
 		}
 		switch op {
 		case token.ADD:
+			// address text + "%zone" (net.IPAddr.String)
+			if xv.tok != nil && xv.tok.kind == "ip" && yv.tok == nil && !yv.opq {
+				if ys, ok := yv.Concrete(); ok {
+					if ys == "" {
+						return xv
+					}
+					if ys == "%" {
+						return Str{tok: &StrTok{kind: "host", host: &HostTok{ip: xv.tok.ip, zone: "%"}}}
+					}
+				}
+			}
+			if xv.tok != nil && xv.tok.kind == "host" && xv.tok.host.zone == "%" && yv.tok == nil {
+				if ys, ok := yv.Concrete(); ok {
+					return Str{tok: &StrTok{kind: "host", host: &HostTok{ip: xv.tok.host.ip, zone: ys}}}
+				}
+			}
 			if xv.opq || yv.opq || xv.tok != nil || yv.tok != nil {
 				return Str{opq: true, taint: xv.taint | yv.taint}
 			}
